@@ -279,6 +279,7 @@ pub struct EncRun {
     /// PIPE: what the downstream decoder produced
     pub pipe_text: String,
     pub final_pending_state: bool,
+    pub panicked_in_contract: bool,
 }
 
 impl EncRun {
@@ -418,6 +419,7 @@ pub fn drive_enc(spec: &EncSpec, mode: EncMode, source: &mut dyn OpSource, mut p
         events: 0,
         pipe_text: String::new(),
         final_pending_state: false,
+        panicked_in_contract: false,
     };
     let mut pipe = if mode == EncMode::Pipe {
         Some(Pipe { dec: spec.enc.output_encoding().new_decoder_without_bom_handling(), held: Vec::new(), text: String::new(), fed: 0 })
@@ -544,6 +546,10 @@ pub fn drive_enc(spec: &EncSpec, mode: EncMode, source: &mut dyn OpSource, mut p
                     run.viols.append(&mut o.viols);
                 }
                 if let Some(p) = outs.iter().find_map(|o| o.panicked.clone()) {
+                    if nrep > 1 && outs.iter().any(|o| o.panicked.is_none()) {
+                        run.viols.push(viol("C18", "replica-divergence", format!("call {}: some replicas panicked ({}) while others returned normally", run.calls.len(), p)));
+                    }
+                    run.panicked_in_contract = in_contract;
                     run.aborted = Some(format!("panic: {}", p));
                     run.ops = source.recorded().to_vec();
                     return run;
